@@ -3,24 +3,26 @@ package main
 import (
 	"go/ast"
 	"go/token"
+	"strings"
 )
 
 // C17: default limits of the internal rate limiter (acmeclient.go) and the structure of the
 // throttle call in ACMEIssuer.doIssue (first attempt only, before the order).
-func init() { items = append(items, emitC17) }
+func init() { items = append(items, c17Emit) }
 
-func emitC17(t *tr) {
+func c17Emit(t *tr) {
 	t.emitZ("rate_limit_events", "RateLimitEvents")
 	t.emitZ("rate_limit_events_window", "RateLimitEventsWindow")
-	t.emitThrottleShape()
-	t.emitThrottleKey()
+	t.c17EmitThrottleShape()
+	t.c17EmitThrottleKey()
+	t.c17EmitThrottleCriticalSection()
 }
 
 // doIssue must contain, in this order:  useTestCA := attempts > 0  ...
 // if !useTestCA { if err := client.throttle(ctx, ...); err != nil { return ... } }  ...
 // client.acmeClient.ObtainCertificate(...)
 // The translator emits the guard as data: (throttle_guard_attempts_gt, throttle_before_order).
-func (t *tr) emitThrottleShape() {
+func (t *tr) c17EmitThrottleShape() {
 	fd := t.funcs["ACMEIssuer.doIssue"]
 	if fd == nil || fd.Body == nil {
 		t.errf("missing ACMEIssuer.doIssue")
@@ -36,7 +38,7 @@ func (t *tr) emitThrottleShape() {
 				if v, err := t.eval(be.Y, 0); err == nil {
 					if id, ok := as.Lhs[0].(*ast.Ident); ok && useVar == "" {
 						useVar = id.Name
-						n, _ := constantInt64(v)
+						n, _ := c19ConstantInt64(v)
 						threshold = n
 					}
 				}
@@ -83,7 +85,7 @@ func (t *tr) emitThrottleShape() {
 }
 
 // throttle: rateLimiterKey := c.acmeClient.Directory + "," + email
-func (t *tr) emitThrottleKey() {
+func (t *tr) c17EmitThrottleKey() {
 	fd := t.funcs["acmeClient.throttle"]
 	if fd == nil || fd.Body == nil {
 		t.errf("missing acmeClient.throttle")
@@ -112,4 +114,44 @@ func (t *tr) emitThrottleKey() {
 	if !found {
 		t.errf("acmeClient.throttle: rateLimiterKey is not `c.acmeClient.Directory + sep + email`")
 	}
+}
+
+// throttle: the look-up of the per-(CA, account) limiter and the insertion of a new one must
+// be one critical section of rateLimitersMu. The translator lists, in source order, every
+// method call on rateLimitersMu, the map look-up and the map insertion, and emits whether the
+// sequence is exactly Lock, lookup, insert, Unlock.
+func (t *tr) c17EmitThrottleCriticalSection() {
+	fd := t.funcs["acmeClient.throttle"]
+	if fd == nil || fd.Body == nil {
+		t.errf("missing acmeClient.throttle")
+		return
+	}
+	var evs []string
+	ast.Inspect(fd.Body, func(n ast.Node) bool {
+		switch n := n.(type) {
+		case *ast.CallExpr:
+			if sel, ok := n.Fun.(*ast.SelectorExpr); ok && exprStr(sel.X) == "rateLimitersMu" {
+				evs = append(evs, sel.Sel.Name)
+			}
+		case *ast.AssignStmt:
+			for _, l := range n.Lhs {
+				if ix, ok := l.(*ast.IndexExpr); ok && exprStr(ix.X) == "rateLimiters" {
+					evs = append(evs, "insert")
+				}
+			}
+			for _, r := range n.Rhs {
+				if ix, ok := r.(*ast.IndexExpr); ok && exprStr(ix.X) == "rateLimiters" {
+					evs = append(evs, "lookup")
+				}
+			}
+		}
+		return true
+	})
+	seq := strings.Join(evs, " ")
+	if !strings.Contains(seq, "lookup") || !strings.Contains(seq, "insert") {
+		t.errf("acmeClient.throttle: no look-up / insertion of rateLimiters found (%s)", seq)
+		return
+	}
+	t.p("(* acmeClient.throttle, operations on rateLimitersMu / rateLimiters in source order: %s *)\n", seq)
+	t.p("Definition throttle_lookup_insert_one_critical_section : bool := %v.\n", seq == "Lock lookup insert Unlock")
 }
